@@ -18,8 +18,10 @@ RulesD == [ip |-> [EVENT |-> << <<60, 1>>, <<1, 3>> >>], global |-> [REQ |-> << 
 \* the rule that says -1 is switched off, the others of the list still bind
 RulesE == [ip |-> [EVENT |-> << <<3600, -1>>, <<1, 2>> >>], global |-> [REQ |-> << <<60, 2>>, <<1, -1>> >>]]
           @@ ("3.3.3.3" :> [REQ |-> << <<60, -1>>, <<1, 1>> >>])
+\* a specific address whose own rule has a longer window than any per-IP rule
+RulesG == [ip |-> [EVENT |-> << <<1, 3>> >>]] @@ ("2.2.2.2" :> [EVENT |-> << <<60, 1>> >>, REQ |-> << <<3600, 2>> >>])
 RulesDef == IF Which = "A" THEN RulesA ELSE IF Which = "B" THEN RulesB ELSE IF Which = "C" THEN RulesC
-            ELSE IF Which = "D" THEN RulesD ELSE RulesE
+            ELSE IF Which = "D" THEN RulesD ELSE IF Which = "E" THEN RulesE ELSE RulesG
 
 INSTANCE RateLimiter WITH Addrs <- {"1.1.1.1", "2.2.2.2", "3.3.3.3"}, Cmds <- {"EVENT", "REQ"}, Rules <- RulesDef,
                           Deltas <- {0, 1, 30, 61}
